@@ -357,12 +357,15 @@ pub fn building(r: &mut Rng, o: &GenOpts) -> Spec {
             }
             let scen = g.r.below(10);
             let pid = if g.r.chance(1, 6) { *g.r.pick(&ID_POOL) } else { id };
-            let scen = if g.r.chance(1, 8) { 10 + g.r.below(3) } else { scen };
+            let scen = if g.r.chance(1, 8) { 10 + g.r.below(4) } else { scen };
             let u: Option<Vec<i64>> = match scen {
                 // exactly a half / a quarter / three quarters of the use at every step
                 10 => Some(use_t.iter().map(|x| (x / (2 * g.vmul)) * g.vmul).collect()),
                 11 => Some(use_t.iter().map(|x| (x / (4 * g.vmul)) * g.vmul).collect()),
                 12 => Some(use_t.iter().map(|x| (3 * x / (4 * g.vmul)) * g.vmul).collect()),
+                // the use profile shifted by one step: the same annual total (exactly, in the dyadic class), surplus at
+                // some steps and a shortfall of the same size at others
+                13 => Some((0..use_t.len()).map(|t| use_t[(t + 1) % use_t.len()]).collect()),
                 0..=3 => None,                                                                  // nothing declared
                 4 => Some(use_t.clone()),                                                       // exact
                 5..=6 => Some(use_t.iter().map(|x| g.qr(*x, 0.0, 1.0)).collect()), // partial
